@@ -252,7 +252,7 @@ func (c *Ctx) checkGateCalls(oi *opInfo, name string, nGates int64, exs map[*ssa
 	// time slice value: result of X.Slice / extractXt
 	isSliceOfX := func(v ssa.Value) bool {
 		t := c.term(v, 0)
-		return strings.HasPrefix(t, "Slice(P1[0]") || strings.HasPrefix(t, "extractXt(")
+		return strings.HasPrefix(t, "Slice(P1[0]") || strings.HasPrefix(t, "extractXt(") || strings.HasPrefix(t, "ExtractTimestep(P1[0]")
 	}
 	type gateCall struct {
 		call  *ssa.Call
@@ -987,16 +987,25 @@ func (c *Ctx) checkTimeSlice(oi *opInfo, name string) {
 	key := "R12:P7:" + name + ":time-slice"
 	var slice *ssa.Call
 	var owner *ssa.Function
+	recvTerm := ""
 	for f := range c.reachFrom([]*ssa.Function{apply}) {
-		if recvNamed(f) != oi.named {
+		helper := recvNamed(f) == nil && fnPkgPath(f) == pkgOps && f.Parent() == nil
+		if recvNamed(f) != oi.named && !helper {
 			continue
 		}
 		for _, b := range f.Blocks {
 			for _, in := range b.Instrs {
 				if cl, ok := in.(*ssa.Call); ok {
 					if nm, recv := tensorMethod(cl); nm == "Slice" {
-						if t := c.term(recv, 0); t == "P1[0]" || (f != apply && t == "P1") {
-							slice, owner = cl, f
+						t := c.term(recv, 0)
+						// the sliced tensor is the operator's input X: inputs[0] in Apply, the tensor parameter of a
+						// method, or the first parameter of a package-level helper that Apply hands inputs[0] to
+						isX := !helper && (t == "P1[0]" || (f != apply && t == "P1"))
+						if helper && t == "P0" && len(varargOrdered(sliceArgs(cl))) == 3 && c.calledWithInput0(apply, f) {
+							isX = true
+						}
+						if isX {
+							slice, owner, recvTerm = cl, f, t
 						}
 					}
 				}
@@ -1025,8 +1034,62 @@ func (c *Ctx) checkTimeSlice(oi *opInfo, name string) {
 			bad = firstNonEmpty(bad, "the time slicer is not [t, t+1): "+t0)
 		}
 	}
-	_ = owner
 	c.decide(bad == "", "R12", key, c.pos(slice.Pos()), "X.Slice([t,t+1), nil, nil): one time step, all samples, all features", bad)
+
+	// the step is given the shape (batch, input) explicitly: gorgonia's Slice drops the sliced time axis, and
+	// with batch = input = 1 returns a rank-0 tensor, on which the matrix products of the step fail
+	restored := false
+	for _, b := range owner.Blocks {
+		for _, in := range b.Instrs {
+			cl, ok := in.(*ssa.Call)
+			if !ok {
+				continue
+			}
+			if nm, recv := tensorMethod(cl); nm == "Reshape" && strings.Contains(c.term(recv, 0), "Slice("+recvTerm+",") {
+				var rs []ssa.Value
+				if cl.Common().IsInvoke() {
+					rs = varargOrdered(cl.Common().Args[0])
+				} else {
+					rs = varargOrdered(cl.Common().Args[1])
+				}
+				if len(rs) == 2 && c.term(rs[0], 0) == "Shape("+recvTerm+")[1]" && c.term(rs[1], 0) == "Shape("+recvTerm+")[2]" {
+					restored = true
+				}
+			}
+		}
+	}
+	c.decide(restored, "R12", "R12:P7:"+name+":step-shape", c.pos(slice.Pos()),
+		"the time step is reshaped to (X.Shape()[1], X.Shape()[2]) = (batch, input)",
+		"the sliced time step is used with whatever shape gorgonia's Slice leaves: the time axis is dropped, and for batch size 1 with input size 1 the step is a rank-0 tensor - the operator refuses a valid sequence (MatMul requires both operands to be matrices)")
+}
+
+func sliceArgs(cl *ssa.Call) ssa.Value {
+	if cl.Common().IsInvoke() {
+		return cl.Common().Args[0]
+	}
+	return cl.Common().Args[1]
+}
+
+// calledWithInput0: Apply (or a method of the same operator) calls helper f with inputs[0] / its X parameter first.
+func (c *Ctx) calledWithInput0(apply, f *ssa.Function) bool {
+	node := c.cg.Nodes[f]
+	if node == nil {
+		return false
+	}
+	for _, e := range node.In {
+		if e.Site == nil || len(e.Site.Common().Args) == 0 {
+			continue
+		}
+		caller := e.Caller.Func
+		if caller != apply && recvNamed(caller) != recvNamed(apply) {
+			continue
+		}
+		t := c.term(e.Site.Common().Args[0], 0)
+		if t == "P1[0]" || (caller != apply && t == "P1") {
+			return true
+		}
+	}
+	return false
 }
 
 var _ = token.ADD
